@@ -12,6 +12,7 @@
   false of model and code alike (known finding F2); its negation is proved below with the witness.
 -/
 import Jawk.Lemmas.RoundTrip
+import Jawk.Lemmas.RunSpec
 namespace Jawk.C01
 open Jawk RT
 
@@ -21,6 +22,16 @@ theorem canonical_stream_fidelity (o : JsonOpts) (sep : List Byte) (hsep : ∀ b
     (hne : sep ≠ []) (vs : List JV) (hvs : ∀ v ∈ vs, Printable o v) (name : Option Str) :
     ∃ r' r'', Reads (Reader.ofBytes (rowsText o sep vs) name) (vs.map norm) r' ∧
       r'.nextJson = (.ok none, r'') := rows_framed o sep hsep hne vs hvs name
+
+/-- with no options the run prints one one-line JSON row per value read, in input order, nothing else, and
+succeeds — for every list of sources and every byte content -/
+theorem default_rows (orc : Oracles) (sources : List Source) (wOut wErr : Writer)
+    (hw : Pipe.Unbounded wOut) (hcl : RunSpec.CleanIO sources) :
+    (run orc {} sources wOut wErr).result = .ok ()
+      ∧ (run orc {} sources wOut wErr).stdout
+          = wOut.out ++ (RunSpec.ctxsOfSources {} sources 0).flatMap
+              (fun ctx => utf8 (printJson {} ctx.input) ++ [10])
+      ∧ (run orc {} sources wOut wErr).stderr = wErr.out := RunSpec.default_rows orc sources wOut wErr hw hcl
 
 /-- a number in jawk's spelling is read back as the same number; in particular an integer literal in
 [-2^63, 2^64) is read exactly, through `u64` / `i64`, never through a double -/
